@@ -9,21 +9,32 @@
 (*       w.off = i*st + j,  i, j >= 0,  w.r >= 1,  w.c >= 1,  j + w.c <= st,   *)
 (*       w.st = st                                                            *)
 (*     (that is: every Dense.Slice(i,k,j,l) view of every row-major parent    *)
-(*     with st columns, any number of rows, and the two parents may even have *)
-(*     different row counts)                                                  *)
-(*       AlgMat(w1, w2) = "none"   <=>   Cells(w1) \cap Cells(w2) = {}        *)
+(*     with st columns and any number of rows; the two windows may even come  *)
+(*     from parents with different row counts)                                *)
+(*       AlgMat(w1, w2) = "none"   <=>   CellsN(w1) \cap CellsN(w2) = {}      *)
 (*     and AlgMat(w1, w2) is never "strides", and it is "identical" only if    *)
 (*     offset, rows and columns agree.                                        *)
+(*   LEMMA Geometry    cells intersect <=> row intervals meet and column      *)
+(*                     intervals meet (uniqueness of Euclidean division)      *)
+(*   LEMMA PosCase     for off > 0: "len(a.Data) <= off or rectanglesOverlap   *)
+(*                     says false"  <=>  rows or columns miss; contains the    *)
+(*                     column-interval criterion modulo the stride            *)
 (*                                                                            *)
 (* AlgMat / RectanglesOverlap are the transcription of mat/shadow.go          *)
 (* (checkOverlap, rectanglesOverlap), Cells is the set of backing-array       *)
 (* indices a window addresses.  The definitions between the two marker lines  *)
 (* are copied VERBATIM from MatAlias.tla; tools/proofs compares the text.     *)
+(* CellsN is Cells with the two-variable set constructor unfolded, see below: *)
+(* that one equation is not machine-proved.                                   *)
 (*                                                                            *)
-(* Trusted base: tlapm f14d233, its SMT translation, Z3 4.8.9 (every leaf     *)
-(* obligation is discharged by SMT; the arithmetic of * \div % on integers is *)
-(* the solver's).  No leaf uses an unproved assumption: the module contains no*)
-(* ASSUME/AXIOM, OMITTED or PROOF-less steps.                                 *)
+(* Trusted base: tlapm f14d233 and its SMT translation, Z3 4.8.9 (all 462     *)
+(* obligations are discharged by the SMT back end; the arithmetic of * \div % *)
+(* on integers is the solver's, used only in section 1).  The module has no   *)
+(* ASSUME, AXIOM, OMITTED or proof-less theorem.  Run with the solver in its  *)
+(* default configuration:                                                     *)
+(*   tlapm --threads 8 --solver 'z3 -smt2 "$file"' OverlapProof.tla           *)
+(* (tlapm's built-in Z3 flags AUTO_CONFIG=false smt.MBQI=true time out on     *)
+(* several of the linear obligations).                                        *)
 EXTENDS Integers
 
 \* BEGIN verbatim MatAlias.tla
